@@ -60,6 +60,10 @@ def build(recipe, cache):
         s.exrule(rr.rrule(**_kw(rr, kw)))
     for d in recipe.get("exdates", []):
         s.exdate(to_dt(d))
+    for d in recipe.get("aware_rdates", []):
+        # an aware instant in an otherwise naive set: the generator raises TypeError when it compares them
+        from dateutil import tz as _tz
+        s.rdate((EPOCH + _dt.timedelta(seconds=d)).replace(tzinfo=_tz.tzutc()))
     return s
 
 
